@@ -79,7 +79,16 @@ CYCLE_MENU = [opx.MENU_STEPS[2], opx.MENU_STEPS[11], opx.MENU_AMEND[2], opx.MENU
 NESTED_MENU = [opx.MENU_STEPS[5], opx.MENU_STEPS[4], opx.MENU_STEPS[2]]
 
 
+# a producer, its consumer, and a user who rewrites the producer's output at any moment (also
+# while the consumer runs, so that the post-run re-hash of the consumer's inputs reports it)
+REHASH_MENU = [opx.MENU_STATIC[0], opx.MENU_STEPS[0], opx.MENU_STEPS[2]]
+
+
 def machine_for(kind, check):
+    if kind == "rehash":
+        m = opx.Machine(menu=REHASH_MENU, check=check, targets_menu=((),), exits=["ok"], allow_kill=False)
+        m.fs_menu = [("touch_out", "b"), ("change", "a")]
+        return m
     if kind == "nested":
         return opx.Machine(menu=NESTED_MENU, check=check, targets_menu=((),), exits=["ok"], fs_events=False)
     if kind.startswith("pair:"):
@@ -100,7 +109,8 @@ def jobs(tier, seed):
     out = []
     full_depth, core_depth = (2, 4) if tier == "quick" else (3, 6)
     cycle_depth = 6 if tier == "quick" else 8
-    kinds = [("full", full_depth), ("core", core_depth), ("cycle", cycle_depth), ("nested", cycle_depth)]
+    kinds = [("full", full_depth), ("core", core_depth), ("cycle", cycle_depth), ("nested", cycle_depth),
+             ("rehash", 7 if tier == "quick" else 9)]
     if tier == "thorough":
         # every pair of requests of the full menu as an alphabet of its own, searched deep
         import itertools
@@ -112,6 +122,12 @@ def jobs(tier, seed):
             out.append({"kind": kind, "root": [("start", ())], "depth": depth})
             continue
         m = machine_for(kind, None)
+        if depth >= 4:
+            # deeper searches: one job per distinct state two (three) events below the start
+            lv = 3 if depth >= 6 else 2
+            for root in opx.split_frontier(m, [("start", ())], lv):
+                out.append({"kind": kind, "root": root, "depth": depth - lv})
+            continue
         st = m.replay([("start", ())])
         for ev in st["enabled"]:
             out.append({"kind": kind, "root": [("start", ()), ev], "depth": depth - 1})
